@@ -30,13 +30,16 @@ fn(A + '.project', properties=['C12'], params={'pt': 'Vec3'}, returns='Vec3',
             'implies(inbox(self, pt), result == pt)'])
 
 fn(A + '.distance', properties=['C12', 'C11'], params={'pt': 'Vec3', 'which': 'str'}, returns='real',
+   ghost_params={'gx': 'Vec3'},      # an arbitrary point: pruning soundness of the k-d tree (C11) is stated for every point of the box
    requires=['valid_box(self)', 'which == "l2" or which == "l1" or which == "linf"'],
    lets={'g0': 'gap(pt[0], self._p1[0], self._p2[0])', 'g1': 'gap(pt[1], self._p1[1], self._p2[1])', 'g2': 'gap(pt[2], self._p1[2], self._p2[2])'},
    ensures=['result >= 0',
             'implies(which == "l2", result*result == g0*g0 + g1*g1 + g2*g2)',
             'implies(which == "l1", result == g0 + g1 + g2)',
             'implies(which == "linf", result >= g0 and result >= g1 and result >= g2 and (result == g0 or result == g1 or result == g2))',
-            'implies(inbox(self, pt), result == 0)'])
+            'implies(inbox(self, pt), result == 0)',
+            # no point of the box is closer to pt than the box distance (what the k-d tree prunes with)
+            'implies(which == "l2" and inbox(self, gx), result*result <= dist2(pt, gx))'])
 
 fn(A + '.intersection', properties=['C12'], params={'b1': 'AABB', 'b2': 'AABB'}, returns='AABB',
    ensures=['result._p1[0] == max(b1._p1[0], b2._p1[0]) and result._p1[1] == max(b1._p1[1], b2._p1[1]) and result._p1[2] == max(b1._p1[2], b2._p1[2])',
